@@ -261,6 +261,10 @@ pub fn replay_other(run: &'static Run, kind: &str, case: &J) -> Option<i32> {
             crate::bbchk::c14_wallclock(run);
             Some(0)
         }
+        "session" if run.prop == "C12" && case.get("oracle").is_some() => {
+            crate::ucichk::replay_c12_session(run, case);
+            Some(0)
+        }
         "session" => {
             crate::searchchk::replay_session(run, case);
             Some(0)
